@@ -41,6 +41,8 @@ type sourceFragment struct {
 	temporalCheckpoint factstore.TemporalFactStore
 	// The predicates that were known before this fragment was pushed.
 	knownCheckpoint map[ast.PredicateSym]ast.Decl
+	// An earlier, still live fragment that was loaded from the same path set, if any.
+	shadowed *sourceFragment
 }
 
 // Interpreter is an interactive interpreter.
@@ -430,7 +432,7 @@ func copyDecls(decls map[ast.PredicateSym]ast.Decl) map[ast.PredicateSym]ast.Dec
 
 func (i *Interpreter) pushSourceFragment(pathset string, units []parse.SourceUnit, programInfo *analysis.ProgramInfo) {
 	i.src = append(i.src, pathset)
-	i.sourceFragments[pathset] = &sourceFragment{units, programInfo, i.simpleStore, i.temporalStore, copyDecls(i.knownPredicates)}
+	i.sourceFragments[pathset] = &sourceFragment{units, programInfo, i.simpleStore, i.temporalStore, copyDecls(i.knownPredicates), i.sourceFragments[pathset]}
 	for _, decl := range programInfo.Decls {
 		i.knownPredicates[decl.DeclaredAtom.Predicate] = *decl
 	}
@@ -471,6 +473,10 @@ func (i *Interpreter) popSourceFragment() *sourceFragment {
 	f := i.sourceFragments[path]
 	i.src = i.src[:l-1]
 	delete(i.sourceFragments, path)
+	if f.shadowed != nil {
+		// The same path set was loaded more than once; the earlier fragment is still live.
+		i.sourceFragments[path] = f.shadowed
+	}
 	// f.program.Decls also holds the declarations of earlier fragments (they were
 	// passed to analysis as known predicates); only forget what this fragment added.
 	i.knownPredicates = f.knownCheckpoint
